@@ -26,6 +26,12 @@ pub struct ServeRun {
 
 /// run `copia serve root` with `input` on stdin under an address-space limit and a timeout
 pub fn run_serve(copia: &str, root: &str, input: &[u8], envs: &[(&str, String)]) -> ServeRun {
+    run_serve_paused(copia, root, input, envs, &[])
+}
+
+/// the same, with the input delivered in pieces: the writer pauses 150 ms at each offset of `pauses`
+/// (a client whose content stream arrives after its frame)
+pub fn run_serve_paused(copia: &str, root: &str, input: &[u8], envs: &[(&str, String)], pauses: &[usize]) -> ServeRun {
     let mut c = Command::new("bash");
     c.arg("-c").arg(format!("ulimit -v 1500000; exec timeout 10 {} serve '{}'", copia, root)).stdin(Stdio::piped()).stdout(Stdio::piped()).stderr(Stdio::null());
     for (k, v) in envs {
@@ -34,8 +40,18 @@ pub fn run_serve(copia: &str, root: &str, input: &[u8], envs: &[(&str, String)])
     let mut child = c.spawn().unwrap();
     let mut si = child.stdin.take().unwrap();
     let inp = input.to_vec();
+    let mut cuts: Vec<usize> = pauses.iter().cloned().filter(|&x| x > 0 && x < inp.len()).collect();
+    cuts.sort();
+    cuts.dedup();
     let w = std::thread::spawn(move || {
-        let _ = si.write_all(&inp);
+        let mut at = 0usize;
+        for c in cuts {
+            if si.write_all(&inp[at..c]).is_err() { return; }
+            let _ = si.flush();
+            std::thread::sleep(std::time::Duration::from_millis(150));
+            at = c;
+        }
+        let _ = si.write_all(&inp[at..]);
     });
     let out = child.wait_with_output().unwrap();
     let _ = w.join();
@@ -210,7 +226,8 @@ fn valid_requests(r: &mut Rng, init: &[(String, Vec<u8>)], pool: &[Vec<u8>]) -> 
 fn gen_sessions(seed: u64, tier: &str) -> Vec<Session> {
     let mut r = Rng::new(seed ^ 0xC12);
     let n = if tier == "thorough" { 3000 } else { 260 };
-    let pool: Vec<Vec<u8>> = vec![b"".to_vec(), b"A".to_vec(), b"BB".to_vec(), b"hello world".to_vec(), vec![0x58; 300], (0..=255u8).collect()];
+    let pool: Vec<Vec<u8>> = vec![b"".to_vec(), b"A".to_vec(), b"BB".to_vec(), b"hello world".to_vec(), vec![0x58; 300], (0..=255u8).collect(),
+        (0..20000usize).map(|j| (j % 253) as u8).collect()]; // larger than the server's 8 KiB stdin buffer: a refused or mismatching content must still be consumed in full
     let mut out = vec![];
     for _ in 0..n {
         let mut init = vec![];
@@ -447,11 +464,20 @@ pub fn main_c11(a: Args) -> i32 {
     let shim = a.rest.iter().position(|x| x == "--shim").map(|i| a.rest[i + 1].clone()).expect("--shim");
     let mut r = Rng::new(a.seed ^ 0xC11);
     let npaths = if a.tier == "thorough" { 6000 } else { 600 };
+    // replay lines: `<id> <hex path | -> [<kind 0=Get 1=Put 2=Delete> <content bytes> <late 0|1>]`
+    let mut forced: Vec<Option<(u64, usize, bool)>> = vec![];
     let paths: Vec<String> = if let Some(p) = &a.replay {
-        std::fs::read_to_string(p).unwrap().lines().filter(|l| !l.trim().is_empty() && !l.starts_with('#')).map(|l| String::from_utf8_lossy(&unhex(l.split_whitespace().nth(1).unwrap())).into_owned()).collect()
+        let mut ps = vec![];
+        for l in std::fs::read_to_string(p).unwrap().lines().filter(|l| !l.trim().is_empty() && !l.starts_with('#')) {
+            let f: Vec<&str> = l.split_whitespace().collect();
+            ps.push(if f[1] == "-" { String::new() } else { String::from_utf8_lossy(&unhex(f[1])).into_owned() });
+            forced.push(if f.len() >= 5 { Some((f[2].parse().unwrap(), f[3].parse().unwrap(), f[4] == "1")) } else { None });
+        }
+        ps
     } else {
         gen_paths(&mut r, npaths)
     };
+    let mut base = 0usize;
     let absout = std::fs::canonicalize(&a.out).unwrap().to_string_lossy().into_owned();
     let sandbox = format!("{}/sandbox", absout);
     let root = format!("{}/HUB", sandbox);
@@ -462,20 +488,38 @@ pub fn main_c11(a: Args) -> i32 {
     let per_session = 6;
     for chunk in paths.chunks(per_session) {
         // requests of this session: one of Get / Put(with content) / Delete per path, then a probe Get on a sentinel inside
-        let kinds: Vec<u64> = chunk.iter().map(|_| r.below(3)).collect();
-        let build = |skip: &dyn Fn(usize) -> bool| -> Vec<u8> {
+        let mut kinds: Vec<u64> = chunk.iter().map(|_| r.below(3)).collect();
+        // content of a Put: mostly 3 bytes, else a size around the server's stdin buffer (8 KiB), the pipe size (64 KiB) or larger
+        let sizes = [0usize, 1, 8191, 8192, 8193, 20000, 65536, 70000, 300_000];
+        let mut bodies: Vec<Vec<u8>> = chunk.iter().map(|_| if r.chance(3, 5) { b"new".to_vec() } else { let n = *r.pick(&sizes); (0..n).map(|j| (j % 251) as u8).collect() }).collect();
+        // some sessions deliver each Put's content 150 ms after its frame
+        let mut late = r.chance(1, 8);
+        for i in 0..chunk.len() {
+            if let Some(Some((k, n, l))) = forced.get(base + i) {
+                kinds[i] = *k;
+                bodies[i] = if *n == 3 { b"new".to_vec() } else { (0..*n).map(|j| (j % 251) as u8).collect() };
+                late = *l;
+            }
+        }
+        base += chunk.len();
+        let build2 = |skip: &dyn Fn(usize) -> bool| -> (Vec<u8>, Vec<usize>) {
             let mut inp = MAGIC.to_vec();
+            let mut pauses = vec![];
             inp.extend(frame(&Request::Hello { version: VERSION }));
             for (i, p) in chunk.iter().enumerate() {
                 if skip(i) { continue; }
                 match kinds[i] {
                     0 => inp.extend(frame(&Request::Get { path: p.clone() })),
-                    1 => { inp.extend(frame(&Request::Put { path: p.clone(), expected: None, len: 3, hash: h32(b"new") })); inp.extend(b"new"); }
+                    1 => {
+                        inp.extend(frame(&Request::Put { path: p.clone(), expected: None, len: bodies[i].len() as u64, hash: h32(&bodies[i]) }));
+                        if late { pauses.push(inp.len()); }
+                        inp.extend(&bodies[i]);
+                    }
                     _ => inp.extend(frame(&Request::Delete { path: p.clone(), expected: Some(h32(b"keep")) })),
                 }
                 inp.extend(frame(&Request::Get { path: "inside.txt".into() }));
             }
-            inp
+            (inp, pauses)
         };
         let setup = || {
             let _ = std::fs::remove_dir_all(&sandbox);
@@ -491,8 +535,10 @@ pub fn main_c11(a: Args) -> i32 {
         setup();
         let _ = std::fs::remove_file(&logf);
         let before_out = outside_snapshot();
-        let full = build(&|_| false);
-        let run = run_serve(&copia, &root, &full, &[("LD_PRELOAD", shim.clone()), ("VPSCHED_LOG", logf.clone())]);
+        let (full, pauses) = build2(&|_| false);
+        if late { out.count("sessions_late_content"); }
+        out.add("put_content_bytes", (0..chunk.len()).filter(|&i| kinds[i] == 1).map(|i| bodies[i].len() as u64).sum());
+        let run = run_serve_paused(&copia, &root, &full, &[("LD_PRELOAD", shim.clone()), ("VPSCHED_LOG", logf.clone())], &pauses);
         let after_out = outside_snapshot();
         let (rs, _) = parse_replies(&run.stdout);
         // replies: Hello, then per path (reply, probe)
@@ -502,7 +548,7 @@ pub fn main_c11(a: Args) -> i32 {
             let rp = rs.get(1 + 2 * i);
             let probe = rs.get(2 + 2 * i);
             let is_ref = rp.map(|x| x == "Error:bad_path");
-            out.line("cases.txt", &format!("{} {}", id, hex(p.as_bytes())));
+            out.line("cases.txt", &format!("{} {} {} {} {}", id, if p.is_empty() { "-".to_string() } else { hex(p.as_bytes()) }, kinds[i], bodies[i].len(), late as u8));
             // when the session died before this request the implementation gave no verdict: replay it alone
             let verdict = match is_ref {
                 Some(b) => b,
@@ -524,11 +570,18 @@ pub fn main_c11(a: Args) -> i32 {
             }
             if verdict {
                 refused.push(i);
-                if let Some(pr) = probe {
-                    if !pr.starts_with("Content:4:") {
+                // only counted when the implementation itself answered the refusal in this session (is_ref)
+                match probe {
+                    Some(pr) if pr.starts_with("Content:4:") => {}
+                    Some(pr) => {
                         nfail += 1;
                         out.line("specfail.txt", &format!("{} C11 after the refused path {:?} the next request was not answered normally: {}", id, p, pr));
                     }
+                    None if is_ref == Some(true) => {
+                        nfail += 1;
+                        out.line("specfail.txt", &format!("{} C11 after the refused path {:?} (request kind {}, content {} bytes{}) the connection was no longer usable: the following Get got no reply", id, p, kinds[i], if kinds[i] == 1 { bodies[i].len() } else { 0 }, if late { ", delivered late" } else { "" }));
+                    }
+                    None => {}
                 }
             }
             if rp.is_some() { answered += 1; }
@@ -568,16 +621,17 @@ pub fn main_c11(a: Args) -> i32 {
             }
         }
         // differential: the same session without the refused requests gives the same replies to the others and the same tree
-        if !refused.is_empty() && run.code == Some(0) {
+        if !refused.is_empty() {
             let tree_full = tree_string(&root);
             setup();
-            let without = build(&|i| refused.contains(&i));
-            let run2 = run_serve(&copia, &root, &without, &[]);
+            let (without, pauses2) = build2(&|i| refused.contains(&i));
+            let run2 = run_serve_paused(&copia, &root, &without, &[], &pauses2);
             let (rs2, _) = parse_replies(&run2.stdout);
             let mut expect = vec![rs[0].clone()];
             for i in 0..chunk.len() {
                 if refused.contains(&i) { continue; }
-                if let (Some(x), Some(y)) = (rs.get(1 + 2 * i), rs.get(2 + 2 * i)) { expect.push(x.clone()); expect.push(y.clone()); }
+                if let Some(x) = rs.get(1 + 2 * i) { expect.push(x.clone()); }
+                if let Some(y) = rs.get(2 + 2 * i) { expect.push(y.clone()); }
             }
             if rs2 != expect || tree_string(&root) != tree_full {
                 nfail += 1;
